@@ -34,7 +34,7 @@ theorem tdiv_neg_pos {m x y : Int} (hm : m ≤ 0) (hy : 0 < y) : m.tdiv y ≤ x 
 
 /-! ## mul -/
 
-theorem mulLarger_tri {t : IntTy} {π : Policy} (w : t.WF π) (hl : t.LargerOK) (hco : π.checkOverflow = true)
+theorem mulLarger_tri {t : IntTy} {π : Policy} (w : t.WF π) (hl : t.LargerW) (hco : π.checkOverflow = true)
     (dir : Dir) {to0 x y : Int} (h0 : t.inRange to0) (hx : t.finite π x) (hy : t.finite π y) :
     Tri t π dir to0 (mulLarger t π to0 x y dir) (x * y) := by
   unfold mulLarger
@@ -75,7 +75,7 @@ theorem mulSigned_tri {t : IntTy} {π : Policy} (w : t.WF π) (hs : t.signed = t
   unfold mulSigned
   simp only [hco, Bool.true_and, Bool.not_true, Bool.false_eq_true, if_false, beq_iff_eq]
   split
-  · exact mulLarger_tri w hl hco dir h0 hx hy
+  · rename_i hu; exact mulLarger_tri w (hl.of_mul hu) hco dir h0 hx hy
   · split
     · rename_i hy0; subst hy0
       simpa using tri_eq (v := 0) ⟨hmin, hmax⟩
@@ -146,7 +146,7 @@ theorem mulUnsigned_tri {t : IntTy} {π : Policy} (w : t.WF π) (hs : t.signed =
   unfold mulUnsigned
   simp only [hco, Bool.true_and, Bool.not_true, Bool.false_eq_true, if_false, beq_iff_eq]
   split
-  · exact mulLarger_tri w hl hco dir h0 hx hy
+  · rename_i hu; exact mulLarger_tri w (hl.of_mul hu) hco dir h0 hx hy
   · split
     · rename_i hz; subst hz
       simpa using tri_eq (v := 0) ⟨hmin, hmax⟩
